@@ -3,9 +3,10 @@ from re import Pattern
 
 from flowmark.linewrapping.tag_handling import TEMPLATE_TAG_PATTERN
 
-# Delimits the stand-in for a template tag while the prose around it is converted
-# (a private-use character that is neither a word character nor punctuation).
-_TAG_MARK = "\ue000"
+# The stand-in for a template tag, while the prose around it is converted, is delimited
+# by a private-use character (neither a word character nor punctuation) that does not
+# occur in the text itself.
+_TAG_MARK_RANGE = range(0xE000, 0xF900)
 
 ELLIPSIS_PATTERN: Pattern[str] = re.compile(
     r"(^|[\w\"\'“‘”’])(\s*)(\.\.\.)([.,:;?!)\-—\"\'”’]?)(\s*)",
@@ -20,21 +21,22 @@ def ellipses(text: str) -> str:
     Template tags (Jinja/Markdoc `{% %}`, `{# #}`, `{{ }}` and HTML comments) are never
     modified, as for smart quotes: they are set aside first and put back afterwards.
     """
-    if _TAG_MARK in text:
+    mark = next((chr(c) for c in _TAG_MARK_RANGE if chr(c) not in text), None)
+    if mark is None:
         return _ellipses_in_prose(text)
 
     tags: list[str] = []
 
     def set_aside(match: re.Match[str]) -> str:
         tags.append(match.group(0))
-        return f"{_TAG_MARK}{len(tags) - 1}{_TAG_MARK}"
+        return f"{mark}{len(tags) - 1}{mark}"
 
     masked = TEMPLATE_TAG_PATTERN.sub(set_aside, text)
     if not tags:
         return _ellipses_in_prose(text)
     converted = _ellipses_in_prose(masked)
     return re.sub(
-        f"{_TAG_MARK}([0-9]+){_TAG_MARK}", lambda match: tags[int(match.group(1))], converted
+        f"{mark}([0-9]+){mark}", lambda match: tags[int(match.group(1))], converted
     )
 
 
